@@ -10,7 +10,7 @@ PROPERTY = "C19"
 LEVEL = "exploration"
 BUDGET = {"quick": 40, "thorough": 600}
 KINDS = ["plain_get", "plain_post", "expect_body", "expect_nobody", "expect_badcl", "expect_oversize",
-         "expect_v10", "expect_chunked"]
+         "expect_v10", "expect_chunked", "expect_dup", "expect_case"]
 EVIDENCE = {
     "rule": "pipelines of 1-4 requests drawn from " + ", ".join(KINDS) + "; the client either sends everything at once "
             "(seeded cut points) or withholds each expecting request's body until it has seen an interim or final "
@@ -87,7 +87,14 @@ def run_one(tapes, tier, scenario=None):
         refused = False
         if expecting:
             hdrs.append(("Expect", "100-continue"))
-        if kind == "plain_get":
+        if kind == "expect_dup":
+            hdrs.append(("Expect", "100-continue"))  # the field sent twice
+        if kind == "expect_case":
+            hdrs[-1] = ("expect", "100-Continue")
+        if kind in ("expect_dup", "expect_case"):
+            body = rbody
+            head = build_request("POST", path, "1.1", hdrs + [("Content-Length", str(len(body)))])
+        elif kind == "plain_get":
             method = "GET"
             head = build_request("GET", path, "1.1", hdrs)
         elif kind in ("plain_post", "expect_body"):
@@ -111,7 +118,7 @@ def run_one(tapes, tier, scenario=None):
             he = full.index(b"\r\n\r\n") + 4
             head, body = full[:he], full[he:]
         it = {"i": i, "kind": kind, "path": path, "method": method, "head": head, "body": body,
-              "decoded": rbody if kind in ("plain_post", "expect_body", "expect_v10", "expect_chunked") else b"",
+              "decoded": rbody if kind in ("plain_post", "expect_body", "expect_v10", "expect_chunked", "expect_dup", "expect_case") else b"",
               "expecting": expecting and version == "1.1", "refused": refused, "version": version,
               "head_end": off + len(head), "end": off + len(head) + len(body),
               "wait": q["wait"] and expecting and version == "1.1" and bool(body), "resp": resp}
